@@ -742,6 +742,7 @@ def explore_maps(prop, tier, seed, n_quick, mode):
                         # evaluates the right-hand side on the histories alone)
                         o.put('hgain', '%s>%s=%d' % (taxS(a), taxS(d), len(v.get_gained())))
                         o.put('hlost', '%s>%s=%d' % (taxS(a), taxS(d), len(v.get_lost())))
+                        o.put('hndup', '%s>%s=%d' % (taxS(a), taxS(d), v.get_number_duplications()))
                     queries.append('(v %s %s)' % (tax_q(d), tax_q(a)) if ex.rng.random() < 0.5 else '(v %s %s)' % (tax_q(a), tax_q(d)))
             elif mode == 'C07':
                 triples, gs = orc.lineage_triples(h)
@@ -791,7 +792,7 @@ def explore_maps(prop, tier, seed, n_quick, mode):
             bad = ['comparison raised %s: %s' % (type(e).__name__, e)]
         if bad:
             ex.fail(cid, D, bad)
-        tags = {'C05': ['vmap'], 'C06': ['vmap', 'upmap', 'hgain', 'hlost', 'hrep'], 'C07': ['upmap'], 'C08': ['lmap', 'lagg', 'vmap', 'verr', 'lerr']}[mode]
+        tags = {'C05': ['vmap'], 'C06': ['vmap', 'upmap', 'hgain', 'hlost', 'hrep', 'hndup'], 'C07': ['upmap'], 'C08': ['lmap', 'lagg', 'vmap', 'verr', 'lerr']}[mode]
         if D.meta.get('large'):
             ex.res.count('large_datasets'); continue
         ex.submit(cid, D, o.tags, ['load'] + tags, queries=queries)
